@@ -38,6 +38,11 @@ FAMILIES = [
 ]
 
 
+_NDARRAY_ATTRS = frozenset('''T all any argmax argmin argsort astype base clip conj conjugate copy ctypes cumprod cumsum data diagonal dot dtype fill flags flat flatten
+imag item itemsize max mean min nbytes ndim nonzero prod ravel real repeat reshape resize round shape size sort squeeze std strides sum swapaxes take tobytes
+tolist trace transpose var view __len__ __getitem__ __setitem__ __iter__ __array__ __add__ __mul__'''.split())
+
+
 def _seq_domain():
     from ..domains.normdom import ArrNormDomain, Arr, Sym, _size
     from ..core.interp import Slice
@@ -86,6 +91,36 @@ def _seq_domain():
 
         lost = None          # set when something is written through a view of an array (the copy made here does not see it)
 
+        # Views.  A part of an array obtained by basic indexing (integers, slices, None, Ellipsis) is a view in numpy: it is modelled as
+        # a copy that remembers which cells of the root array it shows.  Every store / in-place operation is written through to the
+        # root, and every other view of that root is refreshed from it, so the copies never disagree with what numpy would hold.
+        # (An integer-array index gives a copy in numpy too: no link is kept.)
+        @staticmethod
+        def _basic(idx):
+            items = list(idx.items) if isinstance(idx, Tup) else [idx]
+            return not any(isinstance(x, Arr) or (isinstance(x, Tup)) for x in items)
+
+        def _link(self, part, parent, cells):
+            root = getattr(parent, 'root', None)
+            if root is None:
+                part.root, part.root_cells = parent, [tuple(c) for c in cells]
+            else:
+                part.root, part.root_cells = root, [parent.root_cells[parent.offset(c)] for c in cells]
+            part.root.__dict__.setdefault('views', []).append(part)
+
+        def _written(self, arr):
+            """arr.data was modified in place: write through to its root and refresh the other views"""
+            root = getattr(arr, 'root', None)
+            if root is not None:
+                for i, c in enumerate(arr.root_cells):
+                    root.data[root.offset(c)] = arr.data[i]
+            else:
+                root = arr
+            for vw in getattr(root, 'views', ()):
+                if vw is not arr:
+                    for i, c in enumerate(vw.root_cells):
+                        vw.data[i] = root.data[root.offset(c)]
+
         def subscript(self, v, idx, node):
             if isinstance(v, Arr):
                 g = self._general_index(v, idx)
@@ -95,18 +130,29 @@ def _seq_domain():
                     if not shape:
                         return data[0]
                     r = Arr(shape, data)
-                    r.part_of = v
+                    if self._basic(idx):
+                        self._link(r, v, cells)
                     return r
             return ArrNormDomain.subscript(self, v, idx, node)
 
         def augassign(self, op, target, val, node):
-            if isinstance(target, Arr) and getattr(target, 'part_of', None) is not None:
-                self.lost = 'an in-place operation on a part of an array (line %d)' % getattr(node, 'lineno', 0)
+            if isinstance(target, Arr) and (getattr(target, 'root', None) is not None or getattr(target, 'views', None)):
+                r = self.binop(op, target, val, node)
+                if not isinstance(r, Arr) or r.shape != target.shape:
+                    self.lost = 'an in-place operation on an array that has views, whose result is not followed (line %d)' % getattr(node, 'lineno', 0)
+                    return None
+                target.data[:] = r.data
+                self._written(target)
+                return target
             return ArrNormDomain.augassign(self, op, target, val, node) if hasattr(ArrNormDomain, 'augassign') else None
 
         def store_subscript(self, target, idx, val, node):
-            if isinstance(target, Arr) and getattr(target, 'part_of', None) is not None:
-                self.lost = 'a store through a part of an array (line %d)' % getattr(node, 'lineno', 0)
+            r = self._store_subscript(target, idx, val, node)
+            if isinstance(target, Arr):
+                self._written(target)
+            return r
+
+        def _store_subscript(self, target, idx, val, node):
             if isinstance(target, Arr):
                 g = self._general_index(target, idx)
                 if g is not None:
@@ -195,12 +241,28 @@ def _seq_domain():
                     return a0 if last != 'array' else Arr(a0.shape, a0.data)
                 if last in ('max', 'amax', 'min', 'amin') and isinstance(a0, Arr) and all(isinstance(z, Const) for z in a0.data):
                     return Const((max if 'max' in last else min)(z.v for z in a0.data))
+            if dotted == 'numpy.trim_zeros' and len(args) <= 2 and set(kwargs) <= {'trim'}:
+                # entries that are the constant 0 are zeros; a symbolic entry stands for a generic (non-zero) number
+                tr = kwargs.get('trim', args[1] if len(args) > 1 else Const('fb'))
+                seq = list(a0.items) if isinstance(a0, Tup) else (list(a0.data) if isinstance(a0, Arr) and a0.ndim == 1 else None)
+                if seq is not None and isinstance(tr, Const) and isinstance(tr.v, str) and all(isinstance(z, (Const, Sym)) for z in seq):
+                    iszero = lambda z: isinstance(z, Const) and z.v == 0
+                    lo, hi = 0, len(seq)
+                    if 'f' in tr.v.lower():
+                        while lo < hi and iszero(seq[lo]):
+                            lo += 1
+                    if 'b' in tr.v.lower():
+                        while hi > lo and iszero(seq[hi - 1]):
+                            hi -= 1
+                    return Tup(seq[lo:hi], a0.kind) if isinstance(a0, Tup) else Arr((hi - lo,), seq[lo:hi])
             if dotted == 'builtins.len' and isinstance(a0, Arr):
                 return Const(a0.shape[0])
             if dotted in ('builtins.max', 'builtins.min') and len(args) == 1 and isinstance(a0, Arr) and all(isinstance(z, Const) for z in a0.data):
                 return Const((max if dotted.endswith('max') else min)(z.v for z in a0.data))
             if dotted == 'builtins.int' and isinstance(a0, Const) and isinstance(a0.v, int):
                 return a0
+            if dotted == 'builtins.hasattr' and len(args) == 2 and isinstance(a0, Arr) and isinstance(args[1], Const) and isinstance(args[1].v, str):
+                return Const(args[1].v in _NDARRAY_ATTRS)
             return ArrNormDomain.call_ext(self, dotted, args, kwargs, node)
 
         def to_int(self, v, node):
